@@ -705,16 +705,23 @@ def run_values(spec, tier, mg):
                 N, C, F = 1, 1, 2
             valid = _conv_valid(xs, ws, S, P, D)
 
-            def body():
-                x = symarr("x", (N, C) + xs)
-                w = symarr("w", (F, C) + ws)
+            def body(layout="C"):
+                if layout == "C":
+                    x = symarr("x", (N, C) + xs)
+                    w = symarr("w", (F, C) + ws)
+                else:
+                    # data and filters whose two spatial axes are swapped in memory (not C-ordered)
+                    x = np.swapaxes(symarr("x", (N, C) + xs[::-1]), -1, -2)
+                    w = np.swapaxes(symarr("w", (F, C) + ws[::-1]), -1, -2)
                 try:
                     out = conv_nd(x, w, stride=S, padding=P, dilation=D, constant=True)
                     return ("ok", out.data, x, w)
                 except (ValueError, AssertionError) as e:
                     return ("raise", None, x, w)
 
-            for p in explore(body):
+            import functools
+
+            for p in itertools.chain(explore(body), explore(functools.partial(body, "T")) if kind == "conv2d" else ()):
                 if p.exc is not None:
                     res["status"] = common.INCONCLUSIVE
                     res["notes"].append("conv raised %s" % p.exc)
@@ -742,15 +749,17 @@ def run_values(spec, tier, mg):
                 xs, ws, S = [tuple(t) for t in conf]
             valid = all(xs[i] - ws[i] >= 0 and (xs[i] - ws[i]) % S[i] == 0 for i in range(len(xs)))
 
-            def body():
-                x = symarr("x", (1,) + xs)
+            def body(layout="C"):
+                x = symarr("x", (1,) + xs) if layout == "C" else np.swapaxes(symarr("x", (1,) + xs[::-1]), -1, -2)
                 try:
                     out = max_pool(x, ws, S, constant=True)
                     return ("ok", out.data, x)
                 except (ValueError, AssertionError):
                     return ("raise", None, x)
 
-            for p in explore(body):
+            import functools
+
+            for p in itertools.chain(explore(body), explore(functools.partial(body, "T")) if kind == "pool2d" else ()):
                 if p.exc is not None:
                     res["status"] = common.INCONCLUSIVE
                     res["notes"].append("pool raised %s" % p.exc)
